@@ -8,7 +8,11 @@
     - [CSync]: one call of the sync driver for a child under a parent: both sides before and after;
     - [CSettle]: after a burst of operations the harness lets every CA synchronise top-down until a round
       stores no command: the settled pairs, the number of rounds that were needed and the number of commands an
-      extra round stored. *)
+      extra round stored;
+    - [CDropRev]: a CA gave up a resource class (its parent stopped listing it, or a certificate for it could not
+      be processed): the class as it was and the revocation requests (class name, key) of the stored event;
+    - [CHeld]: after the syncs of a parent and a child have settled: the whole delegation view of the parent
+      (every class), what it publishes, and the whole view of the child (every class under every parent). *)
 From KV Require Import base.Tac ca.Ca ca.CaCheck deleg.Bits deleg.Deleg.
 Open Scope N_scope.
 
@@ -34,10 +38,19 @@ Definition sst_eqb (a b : sst) : bool :=
 Inductive xcase :=
 | CCmd (pre : dca) (cmd : dcmd) (err : bool) (post : dca) (pub : option (list (N * list (N * N))))
 | CSync (cfg : tcfg) (pcn parent : N) (inp : sin) (pre post : sst) (err : bool)
-| CSettle (pairs : list (N * sst)) (rounds bound extra : N).
+| CSettle (pairs : list (N * sst)) (rounds bound extra : N)
+| CDropRev (x : dclass) (reqs : list (N * N))
+| CHeld (ph : N) (p : dca) (pub : option (list (N * list (N * N)))) (xh : N) (x : dca).
 
 (** ** Model and implementation agree *)
 Definition is_opaque (c : dcmd) : bool := match c with XOpaque => true | _ => false end.
+
+Fixpoint list_eqb {A} (e : A -> A -> bool) (a b : list A) : bool :=
+  match a, b with
+  | [], [] => true
+  | x :: a', y :: b' => e x y && list_eqb e a' b'
+  | _, _ => false
+  end.
 
 Definition agrees (c : xcase) : bool :=
   match c with
@@ -52,6 +65,8 @@ Definition agrees (c : xcase) : bool :=
       let r := sync_step cfg pcn parent inp pre in
       sst_eqb (sr_st r) post && Bool.eqb (sr_err r) err
   | CSettle _ _ _ _ => true
+  | CDropRev x reqs => list_eqb (fun a b => (fst a =? fst b) && (snd a =? snd b)) (class_revocations x) reqs
+  | CHeld _ _ _ _ _ => true
   end.
 
 (** ** The oracle: the theorems of props/C02.v in executable form, on what the implementation did *)
@@ -224,6 +239,41 @@ Definition activate_ok (pre : dca) (cmd : dcmd) (err : bool) (post : dca) : bool
 
 Definition opt_class_ok (o : option dclass) : bool := match o with Some dc => over_class dc | None => true end.
 
+(** dropped_class_revoked / held: once parent and child have settled, the parent holds (publishes or keeps
+    suspended) certificates for the child only in classes the child is entitled to something in, and only for keys
+    the child still has in its class under that very parent class - no certificate for a key the child has
+    discarded survives. Every certificate in a class belongs to a child that is recorded as using the key in that
+    class. [ph]: the parent's handle as the child knows it, [xh]: the child's handle at the parent. *)
+Definition key_owner (p : dca) (k : N) : option (N * used) :=
+  match find (fun '(_, dch) => amem k (ch_used (dc_ch dch))) (da_children p) with
+  | Some (h, dch) => match aget k (ch_used (dc_ch dch)) with Some u => Some (h, u) | None => None end
+  | None => None
+  end.
+
+Definition child_has_key (x : dca) (ph crcn k : N) : bool :=
+  existsb (fun '(_, xc) => (d_parent xc =? ph) && (d_prcn xc =? crcn) && ks_knows (d_keys xc) k) (da_classes x).
+
+Definition held_class_ok (ph : N) (p : dca) (xh : N) (x : dca) (c : N) (dc : dclass) : bool :=
+  forallb (fun '(k, ic) =>
+    match key_owner p k with
+    | None => false                                   (* a certificate nobody is recorded to hold *)
+    | Some (h, u) =>
+        if h =? xh then
+          match aget xh (da_children p) with
+          | None => false
+          | Some dch =>
+              match u with InUse c' => c' =? c | Revoked => false end
+              (* a certificate without resources (finding F02f) is outside this clause, as in [shrunk_map_ok] *)
+              && (is_empty (i_res ic)
+                  || negb (is_empty (inter (match cur_res dc with Some r => r | None => 0 end) (dc_ent dch))))
+              && child_has_key x ph (name_for_child (dc_ch dch) c) k
+          end
+        else true
+    end) (d_issued dc ++ d_susp dc).
+
+Definition held_ok (ph : N) (p : dca) (xh : N) (x : dca) : bool :=
+  forallb (fun '(c, dc) => held_class_ok ph p xh x c dc) (da_classes p).
+
 Definition c02_ok (c : xcase) : bool :=
   match c with
   | CCmd pre cmd err post pub =>
@@ -232,4 +282,6 @@ Definition c02_ok (c : xcase) : bool :=
   | CSync _ _ _ _ _ post _ => opt_class_ok (st_pc post) && opt_class_ok (st_xc post)
   | CSettle pairs rounds bound extra =>
       forallb (fun '(pcn, s) => settledb pcn s) pairs && (rounds <=? bound) && (extra =? 0)
+  | CDropRev _ _ => true
+  | CHeld ph p pub xh x => held_ok ph p xh x && pub_ok p pub && over_ok p
   end.
